@@ -624,6 +624,141 @@ func c13RefGrid() []c13Case {
 	return out
 }
 
+// c13InvalidGrid: "Every validation rule of every nested configuration value is evaluated": every rule of every Validate
+// method of the built-in configuration types (read from the sources, one entry per error return) x EVERY site at which a
+// value of that type is embedded in a built-in component's configuration (direct field, pointer, squash-embedded struct,
+// nested two and three levels deep). Each case sets exactly the keys of one rule at one site on top of a valid seed and
+// expects the load to fail with a message naming the setting. The unmodified seeds are positive controls.
+func c13InvalidGrid() []c13Case {
+	type rule struct {
+		typ    string
+		set    map[string]any // keys relative to the site
+		expect string
+	}
+	rules := []rule{
+		{"retry", map[string]any{"initial_interval": "-1s"}, "initial_interval"},
+		{"retry", map[string]any{"randomization_factor": 2.0}, "randomization_factor"},
+		{"retry", map[string]any{"multiplier": -1.0}, "multiplier"},
+		{"retry", map[string]any{"max_interval": "-1s"}, "max_interval"},
+		{"retry", map[string]any{"max_elapsed_time": "-1s"}, "max_elapsed_time"},
+		{"retry", map[string]any{"max_elapsed_time": "1s", "initial_interval": "5s"}, "max_elapsed_time"},
+		{"retry", map[string]any{"max_elapsed_time": "10s", "max_interval": "50s"}, "max_elapsed_time"},
+		{"tls", map[string]any{"ca_file": "a", "ca_pem": "b"}, "ca"},
+		{"tls", map[string]any{"min_version": "9.9"}, "min_version"},
+		{"tls", map[string]any{"max_version": "9.9"}, "max_version"},
+		{"tls", map[string]any{"min_version": "1.3", "max_version": "1.2"}, "min_version"},
+		{"net", map[string]any{"transport": "bogus"}, "transport"},
+		{"grpcserver", map[string]any{"max_recv_msg_size_mib": -1}, "max_recv_msg_size_mib"},
+		{"grpcserver", map[string]any{"read_buffer_size": -1}, "read_buffer_size"},
+		{"grpcserver", map[string]any{"write_buffer_size": -1}, "write_buffer_size"},
+		{"grpcclient", map[string]any{"balancer_name": "bogus"}, "balancer_name"},
+		{"queue", map[string]any{"num_consumers": 0}, "num_consumers"},
+		{"queue", map[string]any{"queue_size": 0}, "queue_size"},
+		{"queue", map[string]any{"storage": "file_storage", "wait_for_result": true}, "wait_for_result"},
+		{"queue", map[string]any{"storage": "file_storage", "sizer": "items"}, "sizer"},
+		{"queue", map[string]any{"sizer": "requests", "batch": map[string]any{"flush_timeout": "1s", "min_size": 1, "max_size": 2}}, "sizer"},
+		{"queue", map[string]any{"sizer": "items", "batch": map[string]any{"flush_timeout": "0s", "min_size": 1, "max_size": 2}}, "flush_timeout"},
+		{"queue", map[string]any{"sizer": "items", "batch": map[string]any{"flush_timeout": "1s", "min_size": -1, "max_size": 2}}, "min_size"},
+		{"queue", map[string]any{"sizer": "items", "batch": map[string]any{"flush_timeout": "1s", "min_size": 0, "max_size": -2}}, "max_size"},
+		{"queue", map[string]any{"sizer": "items", "batch": map[string]any{"flush_timeout": "1s", "min_size": 10, "max_size": 5}}, "min_size"},
+		{"timeout", map[string]any{"timeout": "-1s"}, "timeout"},
+		{"memlimit", map[string]any{"check_interval": "0s"}, "check_interval"},
+		{"memlimit", map[string]any{"limit_mib": 0}, "limit"},
+		{"memlimit", map[string]any{"limit_mib": 0, "limit_percentage": 200}, "limit_percentage"},
+		{"memlimit", map[string]any{"limit_mib": 10, "spike_limit_mib": 20}, "spike_limit_mib"},
+		{"memlimit", map[string]any{"limit_mib": 0, "limit_percentage": 50, "spike_limit_percentage": 200}, "spike_limit_percentage"},
+		{"batchproc", map[string]any{"send_batch_size": 10, "send_batch_max_size": 5}, "send_batch_max_size"},
+		{"batchproc", map[string]any{"metadata_keys": []any{"a", "A"}}, "metadata_keys"},
+		{"batchproc", map[string]any{"timeout": "-1s"}, "timeout"},
+		{"debug", map[string]any{"verbosity": "bogus"}, "verbosity"},
+		{"otlpexp", map[string]any{"endpoint": ""}, "endpoint"},
+		{"otlpexp", map[string]any{"endpoint": "localhost:notaport"}, "port"},
+		{"otlphttpexp", map[string]any{"endpoint": ""}, "endpoint"},
+		{"zpages", map[string]any{"endpoint": ""}, "endpoint"},
+	}
+	type site struct {
+		comp   string // key of c13Seeds / "kind/type"
+		prefix []string
+		typ    string
+	}
+	sites := []site{
+		{"exporters/otlp", []string{"retry_on_failure"}, "retry"},
+		{"exporters/otlphttp", []string{"retry_on_failure"}, "retry"},
+		{"receivers/otlp", []string{"protocols", "grpc", "tls"}, "tls"},
+		{"receivers/otlp", []string{"protocols", "http", "tls"}, "tls"},
+		{"exporters/otlp", []string{"tls"}, "tls"},
+		{"exporters/otlphttp", []string{"tls"}, "tls"},
+		{"extensions/zpages", []string{"tls"}, "tls"},
+		{"receivers/otlp", []string{"protocols", "grpc"}, "net"},
+		{"receivers/otlp", []string{"protocols", "grpc"}, "grpcserver"},
+		{"exporters/otlp", nil, "grpcclient"},
+		{"exporters/otlp", []string{"sending_queue"}, "queue"},
+		{"exporters/otlphttp", []string{"sending_queue"}, "queue"},
+		{"exporters/otlp", nil, "timeout"},
+		// (otlphttp's `timeout` is the HTTP client's timeout, for which confighttp has no rule)
+		{"processors/memory_limiter", nil, "memlimit"},
+		{"extensions/memory_limiter", nil, "memlimit"},
+		{"processors/batch", nil, "batchproc"},
+		{"exporters/debug", nil, "debug"},
+		{"exporters/otlp", nil, "otlpexp"},
+		{"exporters/otlphttp", nil, "otlphttpexp"},
+		{"extensions/zpages", nil, "zpages"},
+	}
+	seeds := map[string]map[string]any{
+		"extensions/zpages": {"endpoint": "localhost:55679"}, "processors/batch": {}, "exporters/debug": {},
+	}
+	for k, v := range c13Seeds {
+		seeds[k] = v
+	}
+	mk := func(comp string, cc map[string]any) map[string]any {
+		p := strings.SplitN(comp, "/", 2)
+		m := c13Base(p[0], p[1], cc)
+		svc := m["service"].(map[string]any)
+		pipe := svc["pipelines"].(map[string]any)["traces"].(map[string]any)
+		switch p[0] {
+		case "extensions":
+			svc["extensions"] = []any{p[1]}
+		case "processors":
+			pipe["processors"] = []any{p[1]}
+		case "receivers":
+			pipe["receivers"] = []any{p[1]}
+		case "exporters":
+			pipe["exporters"] = []any{p[1]}
+		}
+		return m
+	}
+	var out []c13Case
+	seenSeed := map[string]bool{}
+	for _, st := range sites {
+		if !seenSeed[st.comp] {
+			seenSeed[st.comp] = true
+			out = append(out, c13Case{Kind: "valid", Comp: "seed configuration of " + st.comp, Config: mk(st.comp, c13Clone(seeds[st.comp]).(map[string]any))})
+		}
+		for _, r := range rules {
+			if r.typ != st.typ {
+				continue
+			}
+			cc := c13Clone(seeds[st.comp]).(map[string]any)
+			var keys []string
+			for k := range r.set {
+				keys = append(keys, k)
+			}
+			sort.Strings(keys)
+			for _, k := range keys {
+				c13Set(cc, append(append([]string{}, st.prefix...), k), r.set[k])
+			}
+			if st.typ == "tls" {
+				// a TLS block next to insecure: true is still validated; remove the shortcut so that the block is used
+				if t, ok := cc["tls"].(map[string]any); ok && len(st.prefix) == 1 {
+					delete(t, "insecure")
+				}
+			}
+			out = append(out, c13Case{Kind: "invalid", Comp: fmt.Sprintf("nested rule: %s::%s %v", st.comp, strings.Join(st.prefix, "::"), r.set), Expect: r.expect, Config: mk(st.comp, cc)})
+		}
+	}
+	return out
+}
+
 func TestVerif(t *testing.T) {
 	ctx := vr.Start("C13", "config")
 	if ctx == nil {
@@ -771,6 +906,9 @@ func TestVerif(t *testing.T) {
 		do(f)
 	}
 	for _, f := range c13RefGrid() {
+		do(f)
+	}
+	for _, f := range c13InvalidGrid() {
 		do(f)
 	}
 	if ctx.Shard == 0 {
